@@ -164,11 +164,12 @@ fn check_det(den: Option<&Den>, p: &Program, family: &str, index: usize, d: usiz
     let run = || {
         let out = run_query(nvars, p, 200, 2_000_000);
         let seq = canon_seq(&out);
+        let sizes: Vec<usize> = out.answers.iter().map(|a| a.cons.len()).collect();
         let bits: Vec<Vec<u64>> = match den {
             Some(den) => out.answers.iter().map(|a| den.bits(&ansset_of_observed(&a.terms, &a.cons)).as_ref().clone()).collect(),
             None => vec![],
         };
-        (seq, bits, format!("{:?}", out.end))
+        (seq, bits, format!("{:?} constraint-set sizes {:?}", out.end, sizes))
     };
     // two unscheduled runs: every HashMap/HashSet gets fresh random keys
     let base = run();
@@ -183,8 +184,11 @@ fn check_det(den: Option<&Den>, p: &Program, family: &str, index: usize, d: usiz
             return;
         }
         if other.2 == base.2 && den.is_some() && other.1 == base.1 {
-            // same instance sets position by position: a purely syntactic difference (which of
-            // two equivalent constraints was kept) — recorded, not raised
+            // same outcome, same number of constraints per answer and the same instance sets
+            // position by position: a purely syntactic difference (which of two equivalent
+            // constraints was kept) — recorded, not raised. A different NUMBER of constraints
+            // (a redundant one left behind in some orders) is raised: the statement fixes the
+            // constraint sets up to the order of their elements.
             syntactic_only = true;
             return;
         }
